@@ -252,6 +252,9 @@ func (p *PIDZero) blockUntilRunnableReady(r Stateable) error {
 
 	for {
 		if r.IsRunning() {
+			if err := p.pendingError(); err != nil {
+				return err
+			}
 			logger.Debug("Runnable is running")
 			return nil
 		}
@@ -279,12 +282,26 @@ func (p *PIDZero) blockUntilRunnableReady(r Stateable) error {
 		case <-ticker.C:
 			// continue waiting, adding an exponential backoff
 			if r.IsRunning() {
+				if err := p.pendingError(); err != nil {
+					return err
+				}
 				logger.Debug("Runnable is running")
 				return nil
 			}
 			timeout = timeout * 2
 			ticker.Reset(timeout)
 		}
+	}
+}
+
+// pendingError returns, without blocking, an error that a runnable has already reported.
+// A runnable that is ready must not open the start-up gate while an earlier failure is queued.
+func (p *PIDZero) pendingError() error {
+	select {
+	case err := <-p.errorChan:
+		return err
+	default:
+		return nil
 	}
 }
 
